@@ -22,6 +22,8 @@
 #include <sys/stat.h>
 #include <unistd.h>
 
+size_t __sanitizer_get_current_allocated_bytes(void);
+
 #define MAXSLOT 64
 #define MAXDATA 4096
 #define MAXTOK 64
@@ -551,7 +553,7 @@ int main(int argc, char** argv)
   signal(SIGFPE, on_fatal);
   signal(SIGABRT, on_fatal);
 
-  char* line = NULL; size_t cap = 0; ssize_t len;
+  size_t cap = 64u << 20; char* line = (char*) malloc(cap); ssize_t len;
   int default_log_matches = 1, default_quiet = 0, iter_log = 1;
 
   while ((len = getline(&line, &cap, in)) > 0)
@@ -887,6 +889,20 @@ int main(int argc, char** argv)
       }
       else die("bad rscan mode %s", mode);
       fprintf(out, "{\"e\":\"ScanRet\",\"sid\":%d,\"ret\":%d,\"calls\":1,\"ncb\":%d}\n", 100 + rr, r, cb.cb_count);
+    }
+    else if (!strcmp(op, "leakcheck"))
+    {
+      /* live heap bytes once the driver's own blobs are released: must return to the value of the previous check */
+      size_t bytes = 0;
+      for (int i = 0; i < MAXDATA; i++) { free(datas[i].p); datas[i].p = NULL; datas[i].n = 0; }
+      for (int i = 0; i < n_includes; i++) { free(includes[i].name); free(includes[i].content.p); }
+      n_includes = 0;
+#if defined(__has_feature)
+#if __has_feature(address_sanitizer)
+      bytes = __sanitizer_get_current_allocated_bytes();
+#endif
+#endif
+      fprintf(out, "{\"e\":\"LeakCheck\",\"bytes\":%zu}\n", bytes);
     }
     else if (!strcmp(op, "reset")) { fputs("{\"e\":\"Reset\"}\n", out); }
     else if (!strcmp(op, "note")) { NEED(1); fputs("{\"e\":\"Note\",\"text\":", out); jcstr(tok[1]); fputs("}\n", out); }
